@@ -154,7 +154,29 @@ def cls(case):
     return out
 
 
+def _with_variable_args(tm):
+    """An extension type where some arguments for *copyable* type parameters are bare variable arguments
+    (`VariableArg` whose parameter is a copyable type parameter): such an argument stands for a copyable type,
+    so it contributes Copyable to a from-params bound, like every non-linear constituent."""
+    t, mask = tm
+    t = json.loads(json.dumps(t))
+    n = 0
+    for i, p in enumerate(t["def"]["params"]):
+        if p["k"] == "type" and p["b"] == "C":
+            if (mask >> (n % 8)) & 1:
+                t["args"][i] = {"k": "var", "i": n, "p": {"k": "type", "b": "C"}}
+            n += 1
+    return t
+
+
+def has_variable_arg(t):
+    return any(a["k"] == "var" for a in t.get("args", []))
+
+
 SUBS = [
+    # bare variable arguments for copyable type parameters, before / after linear type arguments
+    Sub("variable-args", check_type, strategy=lambda tier: st.tuples(asts.ext_types(3, 1), st.integers(1, 255)).map(_with_variable_args).map(lambda t: {"t": t}),
+        nontrivial=lambda c: has_variable_arg(c["t"]) and c["t"]["def"]["bound"]["b"] == "F", classes=lambda c: cls(c) + (["variable-arg"] if has_variable_arg(c["t"]) else []) + (["variable-arg-after-linear-arg"] if has_variable_arg(c["t"]) and ref.ref_bound(c["t"]) == "A" else []), n_quick=1500, n_thorough=8000),
     Sub("types", check_type, fuzz_runs=3000, strategy=lambda tier: st.one_of(asts.types(4 if tier == "quick" else 6), asts.types_x(3 if tier == "quick" else 4, 1)).map(lambda t: {"t": t}),
         nontrivial=lambda c: has_linear_or_fp(c["t"]), classes=cls, n_quick=3000, n_thorough=20000),
     Sub("static-array", check_sarray, strategy=lambda tier: st.one_of(asts.types_x(3, 1), asts.types_x(3, 1), LEAF_ELEMS).map(lambda t: {"elem": t}),
